@@ -177,9 +177,7 @@ def r_viz(ctx):
                 for a in atoms:
                     if a[0] == 'F' and M.is_call(a[1], 'is_empty') and self_field(a[1][2][0], term_c):
                         return True
-                    if a[0] == 'T' and M.is_call(a[1], 'is_some') and self_field(a[1][2][0], 'best_node'):
-                        return True
-                    if a[0] == 'in' and self_field(a[1], 'best_node') and a[2] == frozenset(['Some']):
+                    if opt_is(a, lambda x: self_field(x, 'best_node'), 'Some'):
                         return True
                 return False
             ok, cut, bad = M.guarded(tb_, emits, acc)
